@@ -66,14 +66,14 @@ def applyDefaultsFuel (env : VEnv) : Nat → DRec
 def applyDefaults (env : VEnv) (root : NodeId) (inst : Json) : Res Json :=
   applyDefaultsFuel env (inst.size + env.st.size + 2) root inst
 
-/-- validateDefaults: every schema of the tree; refuses $dynamicRef; validates each default against its schema -/
+/-- validateDefaults: every schema of the tree; refuses $dynamicRef (2020-12); validates each default against its schema -/
 def validateDefaultsLoop (env : VEnv) (fuel : Nat) : List NodeId → Res Unit
   | [] => .ok ()
   | id :: rest =>
     match env.st.get? id with
     | none => .panic
     | some n =>
-      if n.dynamicRef != "" then .err
+      if n.dynamicRef != "" && env.draft == .d2020 then .err      -- draft-07: an unknown keyword, ignored
       else
         match n.default with
         | some d =>
